@@ -339,7 +339,7 @@ def run(c: Check):
         gold = ROOT / "golden" / "c16.json"
         if gold.exists():
             cases += json.load(open(gold))
-        nh, ne = (300, 32) if c.quick else (7000, 400)
+        nh, ne = (300, 32) if c.quick else (4500, 300)
     for _ in range(nh):
         cases.append(gen_hist(c.rng))
     for _ in range(ne):
